@@ -563,6 +563,40 @@ impl SimTerm {
         self.lock().fault = f;
     }
 
+    /// The window gets a new height (the width stays). Growing pulls rows back from the
+    /// scrollback (xterm), or adds blank rows at the bottom when there is none; shrinking is only
+    /// done when enough blank rows below the cursor can go, so that no row that was within reach
+    /// leaves it. Returns false (nothing changed) when the resize cannot be modelled: pty,
+    /// vt100 cross-check, bytes held back by a buffered terminal, not enough blank rows below.
+    pub fn resize_height(&self, new_h: u16) -> bool {
+        let mut s = self.lock();
+        if s.pty.is_some() || s.vt.is_some() || !s.pending_bytes.is_empty() || new_h == 0 {
+            return false;
+        }
+        let (old, new) = (s.h as usize, new_h as usize);
+        if new > old {
+            let d = new - old;
+            let pulled = d.min(s.grid.top);
+            s.grid.top -= pulled;
+            s.grid.cy += pulled;
+            let w = s.grid.w;
+            for _ in 0..(d - pulled) {
+                s.grid.rows.push(vec![' '; w]);
+            }
+        } else if new < old {
+            let d = old - new;
+            let below = old - 1 - s.grid.cy;
+            let n = s.grid.rows.len();
+            if below < d || n < d || s.grid.rows[n - d..].iter().any(|r| r.iter().any(|c| *c != ' ')) {
+                return false;
+            }
+            s.grid.rows.truncate(n - d);
+        }
+        s.h = new_h;
+        s.grid.h = new;
+        true
+    }
+
     fn call(&self, kind: CallKind) -> io::Result<()> {
         if self.lock().yield_in_calls {
             verif_simrt::sched::yield_now();
